@@ -1467,6 +1467,11 @@ class Popen(Process):
                 raise AttributeError(msg) from None
 
     def wait(self, timeout=None):
+        # Same validation as Process.wait(), which is not reached if
+        # the return code is already known.
+        if timeout is not None and not timeout >= 0:
+            msg = "timeout must be a positive integer"
+            raise ValueError(msg)
         if self.__subproc.returncode is not None:
             return self.__subproc.returncode
         ret = super().wait(timeout)
